@@ -1,8 +1,10 @@
 (** C03 -- bit packing and unpacking are exact inverses at every depth and bit order.
     Only property theorems here; each is closed by [exact] of a lemma from Proofs/C03_bits.v, whose
-    subject is the kernel text regenerated from sigpyproc/core/kernels.py (Gen/Kernels.v). *)
+    subject is the kernel text regenerated from sigpyproc/core/kernels.py (Gen/Kernels.v); the public wrappers io/bits.py::unpack / ::pack
+    (validation, bit-order decision, output-buffer rule, kernel selected through the f-string name) are regenerated into Gen/BitsApi.v and
+    characterised by the C03_api_* theorems (Proofs/C03_api.v). *)
 From Coq Require Import ZArith List Bool.
-Require Import SPP.Base.Rt SPP.Gen.Kernels SPP.Model.Bits SPP.Proofs.C03_bits.
+Require Import SPP.Base.Rt SPP.Gen.Kernels SPP.Gen.BitsApi SPP.Model.Bits SPP.Proofs.C03_bits SPP.Proofs.C03_api.
 Import ListNotations.
 Open Scope Z_scope.
 
@@ -44,6 +46,46 @@ Theorem C03_unpack_pack : forall nb big n v p u, In nb [1; 2; 4] -> 0 <= n ->
   forall j, 0 <= j < bf nb * n -> unpack_run nb big n (pack_run nb big n v p) u j = v j.
 Proof. exact unpack_pack. Qed.
 Print Assumptions C03_unpack_pack.
+
+(** the public wrappers.  [first] is the first character of the bit-order string (None for the empty string; 98 = 'b', 108 = 'l'),
+    [is_u8] whether the input array has dtype uint8, [buf] the caller's output buffer with its size; None = ValueError.
+    A call is refused exactly when it is malformed ... *)
+Theorem C03_api_unpack_refuses : forall is_u8 nb first a n buf,
+  unpack_api is_u8 nb first a n buf = None <-> ~ unpack_accepts is_u8 nb first n buf.
+Proof. exact unpack_api_refuses. Qed.
+Print Assumptions C03_api_unpack_refuses.
+
+(** ... and an accepted call returns the bit fields, most significant first iff the order starts with 'b', the same with or without a
+    supplied buffer (of which nothing outside the result positions is touched) *)
+Theorem C03_api_unpack_accepts : forall is_u8 nb first a n buf, 0 <= n -> (forall i, 0 <= i < n -> 0 <= a i < 256) ->
+  unpack_accepts is_u8 nb first n buf ->
+  exists r, unpack_api is_u8 nb first a n buf = Some (r, n * bf nb) /\
+    forall j, r j = if (0 <=? j) && (j <? bf nb * n) then field nb (unpack_order_true first) (a (j / bf nb)) (j mod bf nb)
+                    else match buf with Some (u, _) => u j | None => 0 end.
+Proof. exact unpack_api_accepts. Qed.
+Print Assumptions C03_api_unpack_accepts.
+
+Theorem C03_api_pack_refuses : forall is_u8 nb first v n buf,
+  pack_api is_u8 nb first v n buf = None <-> ~ pack_accepts is_u8 nb first n buf.
+Proof. exact pack_api_refuses. Qed.
+Print Assumptions C03_api_pack_refuses.
+
+Theorem C03_api_pack_accepts : forall is_u8 nb first v n buf, 0 <= n -> (forall i, 0 <= i < bf nb * (n / bf nb) -> 0 <= v i < 2 ^ nb) ->
+  pack_accepts is_u8 nb first n buf ->
+  exists r, pack_api is_u8 nb first v n buf = Some (r, n / bf nb) /\
+    forall j, r j = if (0 <=? j) && (j <? n / bf nb) then byte_of nb (pack_order_true first) (fun k => v (j * bf nb + k))
+                    else match buf with Some (u, _) => u j | None => 0 end.
+Proof. exact pack_api_accepts. Qed.
+Print Assumptions C03_api_pack_accepts.
+
+(** non-vacuity of the wrapper theorems: 'little', 2 bytes at 2 bits into a caller buffer of 8; a 7-element buffer is refused *)
+Example C03_api_example :
+  (match unpack_api true 2 (Some 108) (of_list [27; 228]) 2 (Some (fun _ => 9, 8)) with Some (r, sz) => (to_list 9 r, sz) | None => ([], -1) end)
+    = ([3; 2; 1; 0; 0; 1; 2; 3; 9], 8) /\
+  unpack_api true 2 (Some 108) (of_list [27; 228]) 2 (Some (fun _ => 9, 7)) = None /\
+  unpack_api true 2 (Some 66) (of_list [27; 228]) 2 None = None /\
+  unpack_api true 3 (Some 98) (of_list [27; 228]) 2 None = None.
+Proof. vm_compute. repeat split; reflexivity. Qed.
 
 (** non-vacuity: a concrete byte array meets the hypotheses and the fields are the expected ones *)
 Example C03_example :
